@@ -67,7 +67,7 @@ func allHosts(maxLen int) []string {
 	return out
 }
 
-var structured = []string{"", "a.b:80", "a.b.", "a.b.:80", "a.b..", "b.a.b:8080", "x.b", "a.x", "1.2.3.4", "1.2.3.4:80", "[::1]:80", "[::1]", "::1", "a.b:", "a.b:x", ":80", "A.B", "a.b:80:80", "b.a.b.", "ab.b:1", ".", ".."}
+var structured = []string{"", "a.b:80", "a.b.", "a.b.:80", "a.b..", "b.a.b:8080", "x.b", "a.x", "1.2.3.4", "1.2.3.4:80", "[::1]:80", "[::1]", "::1", "a.b:", "a.b:x", ":80", "A.B", "a.b:80:80", "b.a.b.", "ab.b:1", ".", "..", "a.b-c", "a.b.c", "a.b-", "a.b-c:80", "a.b.c."}
 
 func patterns() []string {
 	var pats []string
@@ -174,6 +174,13 @@ func eval(e *rsx.Env, rq rsx.Req) (bool, bool, string, string) {
 }
 
 func run(c *mc.Ctx, r *mc.Result) {
+	runWith(c, r, "pool", nil)
+	// the same with two fixed hostname routes whose hosts extend "a.b" by '-' and by '.': the node that
+	// ends the host "a.b" then has the edges '-', '.' and '/' (three children sorting around '/')
+	runWith(c, r, "pool.siblings", []string{"a.b-c/a", "a.b.c/a"})
+}
+
+func runWith(c *mc.Ctx, r *mc.Result, boundName string, always []string) {
 	pats := patterns()
 	k := 3
 	hostLen := 5
@@ -182,8 +189,12 @@ func run(c *mc.Ctx, r *mc.Result) {
 		hostLen = 4
 	}
 	hosts := append(allHosts(hostLen), structured...)
+	if always != nil {
+		// fewer generated hosts in this pass: the fixed routes add nothing for most of them
+		hosts = append(allHosts(3), structured...)
+	}
 	paths := rsx.GenPaths([]string{"a", "b"}, 2)
-	r.Bounds["pool"] = fmt.Sprintf("%d patterns, subsets<=%d, all hosts of length<=%d over {a,b,1,.} (%d) + %d structured, %d paths", len(pats), k, hostLen, len(hosts)-len(structured), len(structured), len(paths))
+	r.Bounds[boundName] = fmt.Sprintf("%d patterns (+%d fixed), subsets<=%d, all hosts of length<=%d over {a,b,1,.} (%d) + %d structured, %d paths", len(pats), len(always), k, hostLen, len(hosts)-len(structured), len(structured), len(paths))
 	stopped := false
 	rsx.Subsets(len(pats), k, func(i int, idx []int) {
 		if !c.Mine(i) || stopped {
@@ -197,6 +208,9 @@ func run(c *mc.Ctx, r *mc.Result) {
 		set := make([]rsx.RouteSpec, 0, len(idx))
 		for _, j := range idx {
 			set = append(set, rsx.RouteSpec{Method: "GET", Pattern: pats[j]})
+		}
+		for _, a := range always {
+			set = append(set, rsx.RouteSpec{Method: "GET", Pattern: a})
 		}
 		e, err := rsx.Build(set, rsx.Profile{})
 		if err != nil {
